@@ -5,13 +5,15 @@ Import ListNotations.
 Local Open Scope R_scope.
 
 Definition station (spans : list R) (k : nat) : R := nth k spans 0.
-Definition increasing (l : list R) : Prop := forall a b, (a < b)%nat -> (b < length l)%nat -> nth a l 0 < nth b l 0.
+(* stations are listed root to tip; a step change of the airfoil repeats a station, so they are only required not to decrease *)
+Definition increasing (l : list R) : Prop := forall a b, (a <= b)%nat -> (b < length l)%nat -> nth a l 0 <= nth b l 0.
 (* control points are stored left-to-right along the lifting line: span fraction ascending on a right segment, descending on a left one *)
 Definition ordered (left_side : bool) (cps : list R) : Prop :=
   forall a b, (a <= b)%nat -> (b < length cps)%nat ->
     if left_side then nth b cps 0 <= nth a cps 0 else nth a cps 0 <= nth b cps 0.
 
-(* For any number of stations, any station positions, any control-point positions, on both sides, and whatever the airfoils return:
+(* For any number of stations, any station positions (repeated ones included), any control-point positions, on both sides, and whatever the
+   airfoils return:
    the coefficient used at control point i is the linear interpolation in span fraction between the two airfoils bracketing it,
    each evaluated at control point i's own arguments (fv i k), including control points that coincide with a station. *)
 Theorem C16_blend_spec : forall (left_side : bool) (cps spans : list R) (fv : nat -> nat -> R) (i j : nat),
@@ -27,14 +29,15 @@ Proof.
 Qed.
 Print Assumptions C16_blend_spec.
 
-(* at a station the blend is that station's airfoil alone *)
+(* at a station the blend is that station's airfoil alone - at a repeated station (a step change) the one listed first, i.e. the inboard
+   airfoil, on the left and on the right half alike (fix c66fea3) *)
 Corollary C16_at_station : forall (left_side : bool) (cps spans : list R) (fv : nat -> nat -> R) (i j : nat),
   increasing spans -> ordered left_side cps -> (i < length cps)%nat -> (S j < length spans)%nat ->
+  station spans j < station spans (S j) ->
   nth i cps 0 = station spans (S j) -> nth i cps 0 < station spans (length spans - 1) ->
   blend_at left_side cps spans fv i = fv i (S j).
 Proof.
-  intros left_side cps spans fv i j Hs Ho Hi Hj Hx Hl.
-  assert (Hlt : station spans j < station spans (S j)) by (apply Hs; lia).
+  intros left_side cps spans fv i j Hs Ho Hi Hj Hlt Hx Hl.
   rewrite (C16_blend_spec left_side cps spans fv i j Hs Ho Hi Hj) by (try rewrite Hx; try lra; assumption).
   cbv zeta. rewrite Hx. unfold station in *.
   replace ((nth (S j) spans 0 - nth j spans 0) / (nth (S j) spans 0 - nth j spans 0)) with 1 by (field; lra). ring.
@@ -51,4 +54,12 @@ Proof.
   - intros a b Hab Hb. cbn in Hb. destruct b as [|[|[|[|b]]]]; try lia; destruct a as [|[|[|[|a]]]]; try lia; cbn; lra.
   - unfold station; cbn; lra.
   - unfold station; cbn; lra.
+Qed.
+
+(* non-vacuity of the step case: stations [0; 0.5; 0.5; 1], a right-hand segment whose third control point lies on the step *)
+Example C16_step_example : forall fv, blend_at false [0.1; 0.3; 0.5; 0.7; 0.9] [0; 0.5; 0.5; 1] fv 2 = fv 2%nat 1%nat.
+Proof.
+  intros fv. apply (C16_at_station false [0.1; 0.3; 0.5; 0.7; 0.9] [0; 0.5; 0.5; 1] fv 2 0); try (cbn; lia); try (unfold station; cbn; lra).
+  - intros a b Hab Hb. cbn in Hb. destruct b as [|[|[|[|b]]]]; try lia; destruct a as [|[|[|[|a]]]]; try lia; cbn; lra.
+  - intros a b Hab Hb. cbn in Hb. destruct b as [|[|[|[|[|b]]]]]; try lia; destruct a as [|[|[|[|[|a]]]]]; try lia; cbn; lra.
 Qed.
